@@ -374,6 +374,8 @@ def r14_6_7(ctx) -> None:
 
 
 def run(ctx) -> None:
+    from .common import forwarding_discipline
+    ctx.guard(forwarding_discipline, "R14.12", ['key', 'obj', 'find_key', 'public_key', 'private_key'], 40)  # arguments are handed on under their own name (generic routing rule, rules/common.py)
     ctx.guard(r14_1)
     ctx.guard(r14_2)
     ctx.guard(r14_10)
